@@ -1,6 +1,7 @@
 import PPModel.Base.Sexp
 import PPModel.Mod.PR
 import PPModel.Mod.PRHeap
+import PPModel.Mod.PRFromDict
 namespace PP.Driver.PRD
 open PP PP.Sexp PP.PR PP.PyList
 
@@ -143,7 +144,40 @@ def runHist (s : PR Sexp) : List (Op Sexp (PR Sexp)) → List Sexp
     let r := step s op
     .list (outSexp r.2 :: stateViews r.1) :: runHist r.1 ops
 
+/-! `fromdict <j>` ↦ canonical form of `ParseResults.from_dict(d)`;  j ::= (atom v) | (l j ...) | (d ("k" j) ...) -/
+open PP.FromDict in
+def j? : Nat → Sexp → Option (J Sexp)
+  | 0, _ => none
+  | f+1, x =>
+    match x with
+    | .list [.atom "atom", v] => some (.atom v)
+    | .list (.atom "l" :: xs) => (xs.mapM (j? f)).map J.list
+    | .list (.atom "d" :: kvs) =>
+      (kvs.mapM (fun kv => match kv with
+        | Sexp.list [.str k, v] => (j? f v).map (fun j => (k, j))
+        | _ => none)).map J.dict
+    | _ => none
+
+open PP.FromDict in
+def jSexp : Nat → J Sexp → Sexp
+  | 0, _ => .atom "deep"
+  | _+1, .atom v => v
+  | f+1, .list xs => .list (.atom "l" :: xs.map (jSexp f))
+  | f+1, .dict kvs => .list (.atom "dct" :: kvs.map (fun kv => .list [.str kv.1, jSexp f kv.2]))
+
+open PP.FromDict in
+def rSexp : Nat → R Sexp → Sexp
+  | 0, _ => .atom "deep"
+  | f+1, .obj j => jSexp f j
+  | f+1, .pr toks names =>
+    .list [.atom "pr", .list (toks.map (rSexp f)), .list (names.map (fun kr => .list [.str kr.1, rSexp f kr.2]))]
+
 def prHandle : List Sexp → Option Sexp
+  | [.atom "fromdict", j] =>
+    match j? 64 j with
+    | some (.dict kvs) =>
+      some (.list [rSexp 64 (FromDict.fromDict kvs), jSexp 64 (.dict (FromDict.asDict (FromDict.fromDict kvs)))])
+    | _ => none
   | [.atom "prshare", .str kind, .str probe] => (PRHeap.sharing kind probe).map ofBool
   | [.atom "prhist", st, .list ops] => do
       let ops ← ops.mapM op?
